@@ -460,8 +460,69 @@ def r4(ctx, R):
         R.ok("C10.R4", f.short, "configuration arguments are only read", loc(f, f.node)) if not any(root in ("param:pp_defs", "param:include_dirs") for (root, path, kind) in summ.get(q, {})) else None
 
 
+def r5(ctx, R):
+    """A re-link pass may not skip work because "this is what I stored last time".
+    The include file object, the linked object or the resolved parent keep their
+    identity while what hangs below them was re-parsed; a guard that compares the
+    value a link field held *before* this pass stores into it with the value about
+    to be stored (`bound = inc.file is include_file` ... `continue`) makes the
+    pass a no-op for exactly the objects that went stale."""
+    R.rule("C10.R5", "no resolver skips its work on the ground that a field it is about to store already held the same object (identity/equality memo on the previous pass's value)", floor=5, confirmed=12)
+    n = 0
+    for f in sorted(ctx.m.funcs.values(), key=lambda g: g.qual):
+        if not (f.name.startswith("resolve_") and f.rel.startswith("fortls/parsers/")):
+            continue
+        stores = {}  # access path -> first store statement
+        for st in ctx.m.walk_own(f.node):
+            if isinstance(st, (ast.Assign, ast.AnnAssign)):
+                for t in st.targets if isinstance(st, ast.Assign) else [st.target]:
+                    if isinstance(t, ast.Attribute):
+                        p_ = access_path(t)
+                        if p_ and (p_ not in stores or st.lineno < stores[p_].lineno):
+                            stores[p_] = st
+        n += 1
+        hit = None
+        for cmp_ in (x for x in ctx.m.walk_own(f.node) if isinstance(x, ast.Compare) and len(x.ops) == 1 and isinstance(x.ops[0], (ast.Is, ast.IsNot, ast.Eq, ast.NotEq))):
+            sides = [cmp_.left, cmp_.comparators[0]]
+            if any(isinstance(x, ast.Constant) for x in sides):
+                continue  # None / literal tests are first-time initialisation, not a memo
+            for a_, b_ in (sides, sides[::-1]):
+                pa = access_path(a_)
+                if not (isinstance(a_, ast.Attribute) and pa in stores):
+                    continue
+                st_store = stores[pa]
+                # the read happens before this pass's store, and the other side is what gets stored
+                if cmp_.lineno > st_store.lineno:
+                    continue
+                if unparse(b_) != unparse(st_store.value):
+                    continue
+                if isinstance(b_, ast.Name) and b_.id in f.params:
+                    continue  # a per-pass token handed in by the caller (link version): a one-shot guard within one pass, not a memo across passes
+                # does the comparison decide an early exit?
+                name = None
+                stc = ctx.m.enclosing_stmt(cmp_)
+                if isinstance(stc, ast.Assign) and len(stc.targets) == 1 and isinstance(stc.targets[0], ast.Name):
+                    name = stc.targets[0].id
+                for iff in (x for x in ctx.m.walk_own(f.node) if isinstance(x, ast.If)):
+                    uses = any(x is cmp_ for x in ast.walk(iff.test)) or (name is not None and any(isinstance(x, ast.Name) and x.id == name for x in ast.walk(iff.test)))
+                    if not uses:
+                        continue
+                    exits = [x for b in (iff.body, iff.orelse) for s_ in b for x in ast.walk(s_) if isinstance(x, (ast.Continue, ast.Return, ast.Break))]
+                    if exits:
+                        hit = (cmp_, st_store, exits[0])
+        if hit:
+            cmp_, st_store, ex = hit
+            R.violation("C10.R5", f.short, key(f, ctx.m.enclosing_stmt(cmp_)), loc(f, ex), f"`{unparse(cmp_)}` compares the value `{unparse(st_store.targets[0] if isinstance(st_store, ast.Assign) else st_store.target)}` held before this pass with the object about to be stored, and the pass is cut short on that ground (line {ex.lineno}): when the object is the same but what it holds was re-parsed (an INCLUDE file edited and saved, a re-indexed module), the stale entities of the previous pass stay in place - a long-lived server answers differently from a fresh one")
+        else:
+            R.ok("C10.R5", f.short, "no identity memo on link fields", loc(f, f.node), f"{len(stores)} field stores")
+    if n == 0:
+        raise AnalysisError("C10.R5: no resolver functions (resolve_*) found under fortls/parsers")
+
+
+
 def run(ctx, R):
     r1(ctx, R)
     r2(ctx, R)
     r3(ctx, R)
     r4(ctx, R)
+    r5(ctx, R)
